@@ -162,6 +162,10 @@ class Model:
         if path.startswith('scipp.units.'):
             name = path.split('.')[-1]
             return Unit.named(name)
+        if path.startswith('scipp.DType.'):
+            return norm_dtype(path.split('.')[-1])
+        if path in ('numpy.float32', 'numpy.float64', 'numpy.int32', 'numpy.int64'):
+            return path.split('.')[-1]
         if path in ('numpy.pi', 'math.pi'):
             return self.pyfloat(interp, Rat.sym('pi', positive=True))
         if path in ('numpy.nan', 'math.nan'):
@@ -620,6 +624,8 @@ class Model:
                 return fn(interp, args, kwargs, node)
             if name in EXC_NAMES:
                 return Opaque(f'exception {name}')
+            if name in ('sqrt', 'reciprocal') and args and isinstance(args[0], Unit):
+                return args[0] ** (F(1, 2) if name == 'sqrt' else -1)
             if name in _ELEMENTWISE:
                 return self._elementwise(interp, name, args, kwargs, node)
             if name in REDUCTIONS:
